@@ -135,14 +135,14 @@ def _lazy_files():
 
 # knob: (key, ordered values strict -> permissive)
 LINTERS = {
-    "nesting": dict(cmd="nesting", sections=["nesting"], files=lambda: _files([("py", "nesting", 1, 0), ("ts", "nesting", 2, 1), ("rs", "nesting", 3, 0), ("py", "nesting", 4, 1)]),
+    "nesting": dict(cmd="nesting", sections=["nesting"], files=lambda: _files([("py", "nesting", 1, 0), ("ts", "nesting", 2, 1), ("rs", "nesting", 3, 0), ("py", "nesting", 4, 1), ("js", "nesting", 5, 1)]),
                     knobs=[("max_nesting_depth", [1, 2, 3, 4, 5, 6, 7, 8, 9])], cli={"max_nesting_depth": "--max-depth"},
                     invalid=[("max_nesting_depth", 0), ("max_nesting_depth", -2)], lang_knob="max_nesting_depth"),
-    "srp": dict(cmd="srp", sections=["srp"], files=lambda: {**_files([("py", "srp", 1, 0), ("ts", "srp", 2, 1), ("rs", "srp", 3, 2), ("py", "srp", 4, 2)]), **_srp_kw_files(), **_srp_loc_files()},
+    "srp": dict(cmd="srp", sections=["srp"], files=lambda: {**_files([("py", "srp", 1, 0), ("ts", "srp", 2, 1), ("rs", "srp", 3, 2), ("py", "srp", 4, 2), ("js", "srp", 5, 1)]), **_srp_kw_files(), **_srp_loc_files()},
                 knobs=[("max_methods", [2, 5, 7, 8, 9, 10, 11, 15]), ("max_loc", [3, 10, 20, 30, 40, 60, 200]), ("check_keywords", [True, False])],
                 cli={"max_methods": "--max-methods", "max_loc": "--max-loc"}, invalid=[("max_methods", 0), ("max_loc", -1)], lang_knob="max_methods"),
-    "magic-numbers": dict(cmd="magic-numbers", sections=["magic-numbers"], files=lambda: _files([("py", "magic", 1, 0), ("ts", "magic", 2, 1), ("rs", "magic", 3, 0), ("py", "magic", 4, 2)]),
-                          knobs=[("allowed_numbers", [[], [1307], [1307, 1314], [1307, 1314, 1321], [1307, 1314, 1321, 1328]])], cli={},
+    "magic-numbers": dict(cmd="magic-numbers", sections=["magic-numbers"], files=lambda: _files([("py", "magic", 1, 0), ("ts", "magic", 2, 1), ("rs", "magic", 3, 0), ("py", "magic", 4, 2), ("js", "magic", 5, 1)]),
+                          knobs=[("allowed_numbers", [[], [1307], [1307, 1314], [1307, 1314, 1321], [1307, 1314, 1321, 1328, 1335]])], cli={},
                           invalid=[("max_small_integer", 0), ("max_small_integer", -5)], lang_knob="allowed_numbers"),
     "dry": dict(cmd="dry", sections=["dry"], files=_dry_files, base={"enabled": True},
                 knobs=[("min_duplicate_lines", [2, 3, 4, 5, 6, 7]), ("min_occurrences", [2, 3, 4, 5])], cli={"min_duplicate_lines": "--min-lines"},
@@ -553,7 +553,7 @@ def lang_cases(draw):
     key = L["lang_knob"]
     values = dict(L["knobs"])[key]
     cli_value = draw(st.sampled_from(values)) if key in L["cli"] and draw(st.integers(0, 2)) == 0 else None
-    return {"kind": "lang", "linter": name, "section": L["sections"][0], "key": key, "lang": draw(st.sampled_from(["py", "ts"])),
+    return {"kind": "lang", "linter": name, "section": L["sections"][0], "key": key, "lang": draw(st.sampled_from(["py", "ts", "js", "rs"])),
             "v_lang": draw(st.sampled_from(values)), "v_base": draw(st.sampled_from(values)), "carrier": draw(st.sampled_from(CARRIERS)), "cli_value": cli_value}
 
 
@@ -569,7 +569,7 @@ def langmix_cases(draw):
     base = {k: draw(st.sampled_from(knobs[k])) for k in keys}
     over_keys = draw(st.lists(st.sampled_from(keys), min_size=1, max_size=len(keys), unique=True))
     over = {k: draw(st.sampled_from(knobs[k])) for k in over_keys}
-    return {"kind": "langmix", "linter": name, "section": L["sections"][0], "lang": draw(st.sampled_from(["py", "ts", "rs"])), "base": base, "over": over,
+    return {"kind": "langmix", "linter": name, "section": L["sections"][0], "lang": draw(st.sampled_from(["py", "ts", "js", "rs"])), "base": base, "over": over,
             "carrier": draw(st.sampled_from(CARRIERS)), "spelling": "hyphen"}
 
 
